@@ -13,3 +13,39 @@ c = contract(f"{IC}.get_formatted_imports", props=["C09"], shape={"self.imports"
 @c.ensures(note="vacuity guard / type of the result")
 def gfi_str(self, result):
     return isinstance(result, str)
+
+
+# ---- the other renderers the property names: statements of one import collector, the models package's __init__, undeclared path variables ---------
+c = contract(f"{IC}.get_import_statements", props=["C09"], shape={"self.imports": "dict", "self.relative_imports": "dict", "self.plain_imports": "set"},
+             ordered_iteration=True, abstract_unsupported=True)
+
+
+@c.ensures(note="vacuity guard / type of the result")
+def gis_list(self, result):
+    return isinstance(result, list)
+
+
+c = contract("pyopenapi_gen.emitters.models_emitter:ModelsEmitter._generate_init_py_content", props=["C09"], ordered_iteration=True, abstract_unsupported=True,
+             abstract_comprehensions=True)
+
+
+@c.ensures(note="vacuity guard / type of the result")
+def mi_str(self, result):
+    return True  # (the text comes from an opaque CodeWriter; the contract's content is the ordered_iteration option)
+
+
+c = contract("pyopenapi_gen.helpers.url_utils:extract_url_variables", props=["C09"], types={"url": "str"}, returns="set", abstract_unsupported=True)
+
+
+@c.ensures(note="a set (its iteration order is not an order of the path)")
+def euv_set(url, result):
+    return True
+
+
+c = contract("pyopenapi_gen.visit.endpoint.processors.parameter_processor:EndpointParameterProcessor._ensure_path_variables_as_params", props=["C09"],
+             types={"current_params": "list", "param_details_map": "dict"}, ordered_iteration=True, abstract_unsupported=True, abstract_comprehensions=True)
+
+
+@c.ensures(note="C09: the arguments added for undeclared path variables are appended while iterating an ORDERED sequence (path order), never the set itself")
+def epv_list(self, op, current_params, param_details_map, result):
+    return isinstance(result, list)
